@@ -13,6 +13,11 @@ pub fn run(a: &Args, out: &mut Out) {
     if a.tier == "cases" {
         for line in std::fs::read_to_string(&a.rest[0]).unwrap().lines() {
             let t: Vec<&str> = line.split_whitespace().collect();
+            if t.len() == 5 && t[0] == "c24p" {
+                let (h, n, r1, r2): (u16, u16, u8, u8) = (t[1].parse().unwrap(), t[2].parse().unwrap(), t[3].parse().unwrap(), t[4].parse().unwrap());
+                out.case(&format!("c24p {h} {n} {r1} {r2}"), &format!("{}|{}", observe(h, n, r1), observe(h, n, r2)));
+                continue;
+            }
             if t.len() != 4 { continue; }
             let (h, n, rf): (u16, u16, u8) = (t[1].parse().unwrap(), t[2].parse().unwrap(), t[3].parse().unwrap());
             out.case(&format!("c24 {h} {n} {rf}"), &observe(h, n, rf));
@@ -28,6 +33,21 @@ pub fn run(a: &Args, out: &mut Out) {
         ns.extend(0..=1200u16);
         for b in [4095u16, 4096, 4097, 21844, 21845, 32767, 32768, 32769, 43688, 43689, 43690, 43691, 65521, 65533, 65534, 65535] { ns.push(b); }
         for _ in 0..1500 { ns.push(rng.range(1201, 65535) as u16); }
+    }
+    // pairs of replication factors on one (h, n): the result for the smaller one must be a prefix of the other
+    let mut pn: Vec<u16> = (0..=(if a.tier == "thorough" { 300 } else { 40 })).collect();
+    for b in [255u16, 256, 257, 4096, 21845, 32768, 43690, 65521, 65535] { pn.push(b); }
+    for _ in 0..(if a.tier == "thorough" { 2000 } else { 60 }) { pn.push(rng.range(41, 65535) as u16); }
+    for &n in &pn {
+        let mut hs = vec![0u16, 1, n.wrapping_sub(1), n, 65535, rng.next() as u16];
+        if n > 2 { hs.push(n / 2); }
+        hs.sort(); hs.dedup();
+        for &h in &hs {
+            for r1 in 0..=13u8 { for r2 in (r1 + 1)..=14u8 {
+                out.case(&format!("c24p {h} {n} {r1} {r2}"), &format!("{}|{}", observe(h, n, r1), observe(h, n, r2)));
+            } }
+            for r1 in [1u8, 2, 5, 12] { out.case(&format!("c24p {h} {n} {r1} 255"), &format!("{}|{}", observe(h, n, r1), observe(h, n, 255))); }
+        }
     }
     for &n in &ns {
         let mut hs = vec![0u16, n.wrapping_sub(1), n, 65535, rng.next() as u16, rng.next() as u16];
